@@ -36,7 +36,7 @@ def gen_names(rng, n, style=None):
             pre = rng.choice(["v", "v", "n", ""])
             nm = pre + rng.choice([str(rng.randint(0, 12)), str(rng.randint(8, 120)), "0" + str(rng.randint(0, 12))])
         else:
-            nm = rng.choice(["A", "b", "10", "2", "Z z", "ω", "q", "VERTICES", "x_1", "-5", "e"]) + (str(k) if k > 11 else "")
+            nm = rng.choice(["A", "b", "10", "2", "Z z", "ω", "q", "VERTICES", "x_1", "-5", "e", "", "0"]) + (str(k) if k > 13 else "")
         out.add(nm)
     return sorted(out)
 
